@@ -359,3 +359,226 @@ Proof.
   rewrite (no_p2 cap s ls sd HT F) in H. unfold cnt in H. cbn [count_occ] in H. lia.
 Qed.
 
+Lemma T_enter cap s m td rs : T cap s (enter m td rs).
+Proof. unfold T. destruct td as [|[v c|k|] r]; cbn; exact I. Qed.
+
+Lemma side_rec s up u lk lt g :
+  side {| sp := sp s; ss := ss s; usep := u; lock := lk; late := lt; glog := g |} up = side s up.
+Proof. destruct up; reflexivity. Qed.
+
+Lemma T_self cap s ls t l s' l' :
+  capS cap s -> cntS s -> (forall u x, nth_error ls u = Some x -> T cap s x) -> Gs cap s ls -> Hs s ls ->
+  nth_error ls t = Some l -> step s l = Some (s', l') -> late s' = false -> T cap s' l'.
+Proof.
+  intros HC HN HT HG HS Ht E HL. pose proof (HT t l Ht) as Tl.
+  unfold step in E. destruct l as [m p td rs]. cbn [pcl me todo results] in *. unfold T in Tl. cbn [pcl me] in Tl.
+  destruct p.
+  - inversion E; subst s' l'. apply T_enter.
+  - inversion E; subst s' l'. unfold T. cbn [goto pcl me]. rewrite side_set, Bool.eqb_reflx. cbn. left; reflexivity.
+  - inversion E; subst s' l'. unfold T. cbn [goto pcl me]. rewrite side_set, Bool.eqb_reflx. cbn [fl led].
+    split; [exact Tl|]. rewrite (HN sd), Nat2N.id, nth_error_app2 by lia. rewrite Nat.sub_diag. reflexivity.
+  - destruct (store_step (res (side s sd)) idx v c) as [r' pr]. inversion E; subst s' l'. apply T_enter.
+  - destruct (lock s); inversion E; subst s' l'; unfold T; cbn; exact I.
+  - inversion E; subst s' l'. unfold T; cbn; exact I.
+  - inversion E; subst s' l'. unfold T. cbn [goto pcl]. cbn [late] in HL. apply orb_false_iff in HL. destruct HL as [_ HL].
+    rewrite side_rec. destruct (fl (side s up)); [reflexivity|discriminate].
+  - inversion E; subst s' l'. clear E. unfold T. cbn [goto pcl].
+    pose proof (HN up) as Hn. pose proof (HC up) as Hc.
+    pose proof (perm_at_drain cap s ls up HT HS Tl) as HP.
+    unfold capacity. rewrite Hc.
+    set (n := count (res (side s up))) in *.
+    assert (Hlen : (if N.of_nat cap <? n then N.of_nat cap else n) = N.min n (N.of_nat cap)).
+    { destruct (N.of_nat cap <? n) eqn:Q; [apply N.ltb_lt in Q|apply N.ltb_ge in Q]; lia. }
+    rewrite Hlen.
+    set (take := match k with Some k' => N.min k' (N.min n (N.of_nat cap)) | None => N.min n (N.of_nat cap) end).
+    assert (Htk : take <= N.min n (N.of_nat cap)) by (unfold take; destruct k; lia).
+    destruct (take =? 0) eqn:Q; [apply N.eqb_eq in Q|apply N.eqb_neq in Q].
+    + split; [exact Tl|]. split; [|exact HP]. unfold dg. cbn [length]. repeat split; auto; try lia. intros v [].
+    + repeat split; auto; lia.
+  - inversion E; subst s' l'. clear E. destruct Tl as (F & HW & Hn & Hlen & Htk & Hi & Hacc & HP).
+    pose proof (HC sd) as Hc. pose proof (HN sd) as Hcnt.
+    assert (Hlt : (N.to_nat i < cap)%nat) by lia.
+    set (vals := values (res (side s sd))) in *.
+    assert (Hacc' : acc ++ [nth (N.to_nat i) vals 0] = firstn (S (N.to_nat i)) vals).
+    { rewrite (firstn_S_nth vals (N.to_nat i) 0) by (rewrite Hc; lia). rewrite <- Hacc. reflexivity. }
+    rewrite Hacc'. unfold T. cbn [goto pcl].
+    destruct (i + 1 <? take) eqn:Q; [apply N.ltb_lt in Q|apply N.ltb_ge in Q].
+    + repeat split; auto. replace (N.to_nat (i + 1)) with (S (N.to_nat i)) by lia. reflexivity.
+    + split; [exact F|]. split; [|exact HP].
+      assert (HGj : forall j, (j < S (N.to_nat i))%nat ->
+                    In (nth j vals 0) W /\ (n <= N.of_nat cap -> nth_error W j = Some (nth j vals 0))).
+      { intros j Hj. destruct (HG sd j) as [(u & x & v & c & Hu & P)|[R1 R2]].
+        - rewrite Hcnt, <- HW. lia.
+        - lia.
+        - exfalso. pose proof (HT u x Hu) as Tx. unfold T in Tx. rewrite P in Tx. destruct Tx as [Tx _]. rewrite F in Tx. exact Tx.
+        - rewrite HW. split; [exact R1|]. intros Hle. apply R2. rewrite Hcnt, <- HW. lia. }
+      assert (Hlen' : length (firstn (S (N.to_nat i)) vals) = S (N.to_nat i)).
+      { apply firstn_length_le. rewrite Hc. lia. }
+      unfold dg. rewrite Hlen'. split; [exact Hn|]. split; [exact Hlen|]. split; [lia|]. split.
+      * apply (firstn_In_nth (fun v => In v W)); [rewrite Hc; lia|]. intros j Hj. apply (HGj j Hj).
+      * intros Hle. apply firstn_eq_nth; [rewrite Hc; lia|]. intros j Hj. apply (HGj j Hj). exact Hle.
+  - inversion E; subst s' l'. unfold T. cbn [goto pcl d_unsampled d_len d_vals]. exact (proj2 Tl).
+  - inversion E; subst s' l'. apply T_enter.
+  - inversion E; subst s' l'. unfold T; cbn; exact I.
+  - inversion E; subst s' l'. apply T_enter.
+  - discriminate.
+Qed.
+
+(* ---- the invariant and its preservation by every step *)
+Definition Inv3 (cap : nat) (c : config) : Prop :=
+  Inv2 c /\ capS cap (fst c) /\ cntS (fst c) /\
+  (late (fst c) = false ->
+     (forall u x, nth_error (snd c) u = Some x -> T cap (fst c) x) /\ Gs cap (fst c) (snd c) /\ Hs (fst c) (snd c) /\
+     (forall d W St, In (d, W, St) (glog (fst c)) -> dg cap (d_unsampled d) (d_len d) (d_vals d) W /\ Permutation St W)).
+
+Lemma Inv3_step cap : step_preserves step (Inv3 cap).
+Proof.
+  intros s ls t l s' l' (I2 & HC & HN & HB) Ht E. cbn [fst snd] in *.
+  pose proof (Inv2_step s ls t l s' l' I2 Ht E) as I2'.
+  destruct (U_step cap s l s' l' HC HN E) as [HC' HN'].
+  split; [exact I2'|]. split; [exact HC'|]. split; [exact HN'|]. cbn [fst snd]. intros HL.
+  pose proof (step_late _ _ _ _ E HL) as HL0. destruct (HB HL0) as (HT & HG & HS & HLg).
+  split; [|split; [|split]].
+  - intros u x Hx. destruct (nth_error_upd_cases ls t l' u x Hx) as [[-> ->]|[Hne Hx']].
+    + apply (T_self cap s ls t l s' l' HC HN HT HG HS Ht E HL).
+    + apply (T_other cap s s' ls t l u x I2 Ht Hx' Hne (HT t l Ht) (HT u x Hx') (step_eff s l s' l' E)).
+  - apply (G_step cap s ls t l s' l' HC HN (HT t l Ht) HG Ht E).
+  - apply (Hs_step cap s ls t l s' l' HT HS Ht E).
+  - intros d W St Hin. destruct (step_glog _ _ _ _ E) as [Q|(d0 & W0 & St0 & P & Q)]; rewrite Q in Hin.
+    + apply HLg; exact Hin.
+    + destruct Hin as [Hin|Hin]; [inversion Hin; subst|apply HLg; exact Hin].
+      pose proof (HT t l Ht) as Tl. unfold T in Tl. rewrite P in Tl. exact Tl.
+Qed.
+
+Lemma Inv3_init cap ps : Inv3 cap (init_config cap ps).
+Proof.
+  split; [apply Inv2_init|]. unfold init_config. cbn [fst snd].
+  split; [intros sd; destruct sd; cbn; apply repeat_length|].
+  split; [intros sd; destruct sd; reflexivity|]. intros _. split; [|split; [|split]].
+  - intros u x Hx. destruct (init_locals_me ps 0 u x Hx) as [_ P]. unfold T. rewrite P. exact I.
+  - intros sd j Hj. destruct sd; cbn in Hj; lia.
+  - intros sd v. rewrite (fm_nil (p2v sd)).
+    + destruct sd; reflexivity.
+    + intros u x Hx. destruct (init_locals_me ps 0 u x Hx) as [_ P]. unfold p2v. rewrite P. reflexivity.
+  - intros d W St [].
+Qed.
+
+(* every schedule, thread count and program: if no side was retired with a push in flight on it,
+   every completed drain [d] is accounted against [St] = the values of the pushes that started
+   (1601) on its side since that side's previous count reset, [W] being those same values in the
+   order of their fetch_adds (1602) *)
+Theorem accounting_except_late_push : forall cap ps sched,
+  let c := fst (exec step site (init_config cap ps) sched) in
+  late (fst c) = false ->
+  forall d W St, In (d, W, St) (glog (fst c)) ->
+    Permutation St W /\
+    d_unsampled d = N.of_nat (length St) /\
+    d_len d = N.min (d_unsampled d) (N.of_nat cap) /\
+    N.of_nat (length (d_vals d)) <= d_len d /\
+    (forall v, In v (d_vals d) -> In v St) /\
+    (d_unsampled d <= N.of_nat cap -> d_vals d = firstn (length (d_vals d)) W) /\
+    sample_rate d = (if d_unsampled d <=? N.of_nat cap then (1, 1) else (N.of_nat cap, d_unsampled d)).
+Proof.
+  intros cap ps sched c HL d W St Hin.
+  pose proof (invariant_all_schedules step site (Inv3 cap) (Inv3_step cap) sched _ (Inv3_init cap ps)) as (_ & _ & _ & HB).
+  fold c in HB. destruct (HB HL) as (_ & _ & _ & HG). destruct (HG d W St Hin) as ((A & B & C & D & F) & HP).
+  split; [exact HP|]. split; [rewrite (Permutation_length HP); exact A|]. split; [exact B|]. split; [exact C|].
+  split; [intros v Hv; apply (Permutation_in v (Permutation_sym HP)); apply D; exact Hv|]. split; [exact F|].
+  unfold sample_rate. rewrite B.
+  destruct (d_unsampled d <=? N.of_nat cap) eqn:L; [apply N.leb_le in L|apply N.leb_gt in L].
+  - replace (N.min (d_unsampled d) (N.of_nat cap)) with (d_unsampled d) by lia. rewrite N.eqb_refl. reflexivity.
+  - replace (N.min (d_unsampled d) (N.of_nat cap)) with (N.of_nat cap) by lia.
+    destruct (d_unsampled d =? N.of_nat cap) eqn:Q; [apply N.eqb_eq in Q; lia|reflexivity].
+Qed.
+
+(* ---- every schedule (late push or not): the count of a side is the number of fetch_adds that
+   landed on it since its last reset, and every drain a thread returned is in the ghost log *)
+Theorem count_is_ledger_length_every_schedule : forall cap ps sched sd,
+  let c := fst (exec step site (init_config cap ps) sched) in
+  count (res (side (fst c) sd)) = N.of_nat (length (led (side (fst c) sd))).
+Proof.
+  intros cap ps sched sd c.
+  pose proof (invariant_all_schedules step site (Inv3 cap) (Inv3_step cap) sched _ (Inv3_init cap ps)) as (_ & _ & HN & _).
+  apply HN.
+Qed.
+
+Lemma enter_results m td rs : results (enter m td rs) = rs.
+Proof. destruct td as [|[v c|k|] r]; reflexivity. Qed.
+
+Lemma step_results s l s' l' : step s l = Some (s', l') ->
+  results l' = results l \/
+  exists y, results l' = y :: results l /\ forall d, y = MConsume d -> exists W St, pcl l = K10 d W St.
+Proof.
+  intros E. unfold step in E. destruct l as [m p td rs]. cbn [pcl me todo results] in *.
+  destruct p; try (inversion E; subst s' l'; left; try reflexivity; apply enter_results).
+  - destruct (store_step (res (side s sd)) idx v c) as [r' pr]. inversion E; subst s' l'. right.
+    exists (MPush pr). unfold finish. rewrite enter_results. split; [reflexivity|]. intros d H. discriminate.
+  - destruct (lock s); inversion E; subst s' l'; left; reflexivity.
+  - inversion E; subst s' l'. right. exists (MConsume d). unfold finish. rewrite enter_results. split; [reflexivity|].
+    intros d0 H. inversion H; subst. eauto.
+  - inversion E; subst s' l'. right. eexists. unfold finish. rewrite enter_results. split; [reflexivity|]. intros d H. discriminate.
+Qed.
+
+Definition Rinv (c : config) : Prop :=
+  forall u x d, nth_error (snd c) u = Some x -> In (MConsume d) (results x) ->
+                exists W St, In (d, W, St) (glog (fst c)).
+
+Lemma Rinv_step : step_preserves step Rinv.
+Proof.
+  intros s ls t l s' l' H Ht E u x d Hx Hin. cbn [fst snd] in *.
+  assert (Hmono : forall e, In e (glog s) -> In e (glog s')).
+  { intros e He. destruct (step_glog _ _ _ _ E) as [Q|(d0 & W0 & St0 & _ & Q)]; rewrite Q; [exact He|right; exact He]. }
+  destruct (nth_error_upd_cases ls t l' u x Hx) as [[-> ->]|[Hne Hx']].
+  - destruct (step_results _ _ _ _ E) as [R|(y & R & Hy)]; rewrite R in Hin.
+    + destruct (H t l d Ht Hin) as (W & St & HW). exists W, St. apply Hmono. exact HW.
+    + destruct Hin as [->|Hin].
+      * destruct (Hy d eq_refl) as (W & St & P).
+        destruct (step_glog _ _ _ _ E) as [Q|(d0 & W0 & St0 & P0 & Q)].
+        -- exfalso. unfold step in E. rewrite P in E. inversion E as [[A B]]. rewrite <- A in Q. cbn in Q.
+           assert (L : length ((d, W, St) :: glog s) = length (glog s)) by (rewrite Q; reflexivity). cbn in L. lia.
+        -- rewrite P in P0. inversion P0; subst. exists W0, St0. rewrite Q. left. reflexivity.
+      * destruct (H t l d Ht Hin) as (W & St & HW). exists W, St. apply Hmono. exact HW.
+  - destruct (H u x d Hx' Hin) as (W & St & HW). exists W, St. apply Hmono. exact HW.
+Qed.
+
+Theorem returned_drains_are_logged : forall cap ps sched,
+  let c := fst (exec step site (init_config cap ps) sched) in
+  forall u x d, nth_error (snd c) u = Some x -> In (MConsume d) (results x) ->
+                exists W St, In (d, W, St) (glog (fst c)).
+Proof.
+  intros cap ps sched c.
+  apply (invariant_all_schedules step site Rinv Rinv_step sched (init_config cap ps)).
+  intros u x d Hx Hin. cbn [fst snd init_config] in *.
+  destruct (init_locals_me ps 0 u x Hx) as [_ P].
+  assert (R : results x = []).
+  { clear -Hx. revert u Hx. generalize 0. induction ps as [|p r IH]; intros m [|u] H; cbn in H; try discriminate.
+    - inversion H; reflexivity.
+    - apply (IH _ _ H). }
+  rewrite R in Hin. destruct Hin.
+Qed.
+
+(* the same statement for the configuration the correspondence check runs to (the schedule, then
+   the round-robin tail) *)
+Theorem accounting_except_late_push_full_run : forall cap ps sched fuel,
+  let c := fst (exec_full step site fuel (init_config cap ps) sched) in
+  late (fst c) = false ->
+  forall d W St, In (d, W, St) (glog (fst c)) ->
+    Permutation St W /\
+    d_unsampled d = N.of_nat (length St) /\
+    d_len d = N.min (d_unsampled d) (N.of_nat cap) /\
+    N.of_nat (length (d_vals d)) <= d_len d /\
+    (forall v, In v (d_vals d) -> In v St) /\
+    (d_unsampled d <= N.of_nat cap -> d_vals d = firstn (length (d_vals d)) W) /\
+    sample_rate d = (if d_unsampled d <=? N.of_nat cap then (1, 1) else (N.of_nat cap, d_unsampled d)).
+Proof.
+  intros cap ps sched fuel c HL d W St Hin.
+  pose proof (invariant_exec_full step site (Inv3 cap) (Inv3_step cap) fuel sched _ (Inv3_init cap ps)) as (_ & _ & _ & HB).
+  fold c in HB. destruct (HB HL) as (_ & _ & _ & HG). destruct (HG d W St Hin) as ((A & B & C & D & F) & HP).
+  split; [exact HP|]. split; [rewrite (Permutation_length HP); exact A|]. split; [exact B|]. split; [exact C|].
+  split; [intros v Hv; apply (Permutation_in v (Permutation_sym HP)); apply D; exact Hv|]. split; [exact F|].
+  unfold sample_rate. rewrite B.
+  destruct (d_unsampled d <=? N.of_nat cap) eqn:L; [apply N.leb_le in L|apply N.leb_gt in L].
+  - replace (N.min (d_unsampled d) (N.of_nat cap)) with (d_unsampled d) by lia. rewrite N.eqb_refl. reflexivity.
+  - replace (N.min (d_unsampled d) (N.of_nat cap)) with (N.of_nat cap) by lia.
+    destruct (d_unsampled d =? N.of_nat cap) eqn:Q; [apply N.eqb_eq in Q; lia|reflexivity].
+Qed.
